@@ -932,7 +932,7 @@ Theorem explicit_id_in_use_refused s t k idq size :
 Proof.
   intros SI Hio F K Hid Hin S L W. destruct (ids_inv s SI) as (_ & _ & IDS). apply (IDS Hio) in Hin.
   unfold start_task. rewrite F.
-  replace ((k =? 0) || (7 <? k)) with false by (destruct K as [->|[->|[->|[->| ->]]]]; reflexivity).
+  replace ((k =? 0) || (8 <? k)) with false by (destruct K as [->|[->|[->|[->| ->]]]]; reflexivity).
   replace (k =? 6) with false by (destruct K as [->|[->|[->|[->| ->]]]]; reflexivity).
   replace (k =? 5) with false by (destruct K as [->|[->|[->|[->| ->]]]]; reflexivity).
   set (s0x := if k =? 7 then _ else _).
@@ -2431,4 +2431,118 @@ Proof.
   assert (E6 : io s = 0) by (vm_compute; reflexivity).
   clearbody s. repeat split; auto.
   unfold wake_ok. rewrite E1, E2, E3, E4, E5. intros W. destruct W as [W|W]; [lia|change (1 <= 0 + 0) in W; lia|discriminate].
+Qed.
+
+(* ---------------------------------------------------------------- a send that fails locally reserves nothing *)
+(* the connection-level bookkeeping a send registers itself in, and the wire *)
+Definition books (s s' : sink) : Prop :=
+  inflight s' = inflight s /\ ids s' = ids s /\ rxm s' = rxm s /\ waiters s' = waiters s /\ swait s' = swait s /\
+  srem s' = srem s /\ crem s' = crem s /\ wire s' = wire s.
+
+Lemma books_refl s : books s s.
+Proof. unfold books. repeat split. Qed.
+Lemma books_tasks s s1 l : books s s1 -> books s (set_tasks s1 l).
+Proof. unfold books. sk. auto. Qed.
+Lemma nopush_books x s s1 : nopush x s s1 -> books s s1.
+Proof.
+  unfold nopush, books. intros (A1&A2&A3&A4&A5&A6&A7&A8&A9&A10&A11&A12&A13&A14&A15&A16). repeat split; assumption.
+Qed.
+
+Definition ended (st : tstate) (e : N) : Prop := st = TDone e \/ st = TDeferred e.
+
+Lemma send_res_ended s x s1 st e : send_res s x s1 st -> ended st e \/ ended (defer st) e -> books s s1.
+Proof.
+  intros R E. destruct R as [s1 e0 NP|s1 Hio W P|s1 id Hio L W P].
+  - eapply nopush_books; eauto.
+  - exfalso. cbn [defer] in E. unfold ended in E. destruct E as [[E|E]|[E|E]]; discriminate.
+  - exfalso. cbn [defer] in E. unfold ended in E. destruct E as [[E|E]|[E|E]]; discriminate.
+Qed.
+
+(* the wait_publish_response level: every error leaves the state as it was *)
+Lemma wait_publish_response_err s id ack rem tag big s' e :
+  wait_publish_response s id ack rem tag big = (s', inr e) -> s' = s.
+Proof.
+  unfold wait_publish_response, enc_publish_chk, new_chan.
+  destruct (negb (srem s =? 0)); [intros H; now injection H as <- _|].
+  destruct (memN id (ids s)); [intros H; now injection H as <- _|].
+  destruct (big && (io s =? 0)); [intros H; now injection H as <- _|]. discriminate.
+Qed.
+
+(* a PUBLISH larger than the maximum outbound packet size on an open connection is refused by the encoder *)
+Lemma wait_publish_response_big s id ack rem tag :
+  srem s = 0 -> memN id (ids s) = false -> io s = 0 ->
+  wait_publish_response s id ack rem tag true = (s, inr ST_ENCODE).
+Proof.
+  intros S M I. unfold wait_publish_response, enc_publish_chk. rewrite S, M, I. reflexivity.
+Qed.
+
+Lemma poll_ended_books s t x' e :
+  find_task t (tasks (poll_task s t)) = Some x' -> ended (tst x') e -> books s (poll_task s t).
+Proof.
+  destruct (find_task t (tasks s)) as [x|] eqn:F.
+  2:{ intros _ _. unfold poll_task. rewrite F. apply books_refl. }
+  destruct (poll_task_spec s t x F) as (s1 & st & R & ->). sk. rewrite find_put_same.
+  intros H E. injection H as <-. cbn [with_tst tst] in E. apply books_tasks.
+  destruct R; try apply books_refl; try (eapply nopush_books; eassumption);
+    eapply send_res_ended; eauto.
+Qed.
+
+Lemma start_ended_books s t k idq size x' e :
+  find_task t (tasks (start_task s t k idq size)) = Some x' -> tk x' = 8 -> ended (tst x') e ->
+  books s (start_task s t k idq size).
+Proof.
+  destruct (find_task t (tasks s)) as [x|] eqn:F.
+  { intros _ _ _. unfold start_task. rewrite F. apply books_refl. }
+  pose proof (start_task_spec s t k idq size F) as R.
+  remember (start_task s t k idq size) as S eqn:ES. clear ES.
+  destruct R as [|s1 e0 K P|e0 K|s1 K Hio W P|s0 x s1 st K E0 EX R]; intros H T E.
+  - apply books_refl.
+  - exfalso. sk in H. rewrite find_put_same in H. injection H as <-. discriminate.
+  - exfalso. sk in H. rewrite find_put_same in H. injection H as <-. discriminate.
+  - exfalso. sk in H. rewrite find_put_same in H. injection H as <-. discriminate.
+  - sk in H. rewrite find_put_same in H. injection H as <-. rewrite nsp_tk in T. rewrite nsp_tst in E.
+    assert (K8 : k = 8) by (subst x; unfold new_task in T; destruct (k =? 7); exact T).
+    subst k. cbn [N.eqb Pos.eqb] in E0. subst s0. apply books_tasks. eapply send_res_ended; eauto.
+Qed.
+
+Lemma create_ended_books s t k idq size x' e :
+  find_task t (tasks (create_task s t k idq size)) = Some x' -> tk x' = 8 -> ended (tst x') e ->
+  books s (create_task s t k idq size).
+Proof.
+  destruct (find_task t (tasks s)) as [x|] eqn:F.
+  { intros _ _ _. unfold create_task. rewrite F. apply books_refl. }
+  pose proof (create_task_spec s t k idq size F) as R.
+  remember (create_task s t k idq size) as S eqn:ES. clear ES.
+  destruct R as [|K|e0 K|s1 K Hio W P|K|s0 x s1 st K E0 EX R]; intros H T E.
+  - apply books_refl.
+  - eapply start_ended_books; eauto.
+  - exfalso. sk in H. rewrite find_put_same in H. injection H as <-. discriminate.
+  - exfalso. sk in H. rewrite find_put_same in H. injection H as <-. discriminate.
+  - exfalso. sk in H. rewrite find_put_same in H. injection H as <-. cbn [tk] in T. destruct K; congruence.
+  - sk in H. rewrite find_put_same in H. injection H as <-. rewrite nsp_tk in T. rewrite nsp_tst in E.
+    assert (K8 : k = 8) by (subst x; unfold new_task in T; destruct (k =? 7); exact T).
+    subst k. cbn [N.eqb Pos.eqb] in E0. subst s0. apply books_tasks. eapply send_res_ended; eauto.
+Qed.
+
+Lemma settle_books s s1 : books s s1 -> books s (settle s1).
+Proof. unfold books, settle. destruct (io s1 =? 1); sk; auto. Qed.
+
+(* a QoS 1 send whose PUBLISH cannot be encoded (kind 8) reserves nothing *)
+Theorem failed_publish_reserves_nothing (s : sink) (o : op) (t : N) (x' : task) :
+  (o = OPoll t \/ exists k idq size, o = OStart t k idq size \/ o = OCreate t k idq size) ->
+  find_task t (tasks (sink_op s o)) = Some x' -> tk x' = 8 ->
+  (tst x' = TDone ST_ENCODE \/ tst x' = TDeferred ST_ENCODE) ->
+  let s' := sink_op s o in
+  inflight s' = inflight s /\ ids s' = ids s /\ rxm s' = rxm s /\ waiters s' = waiters s /\ swait s' = swait s /\
+  srem s' = srem s /\ crem s' = crem s /\ wire s' = [].
+Proof.
+  intros O H T E. cbv zeta.
+  assert (TS : forall a, tasks (settle a) = tasks a) by (intros a; unfold settle; destruct (io a =? 1); reflexivity).
+  unfold sink_op in *. rewrite TS in H.
+  assert (B : books (set_wire s []) (settle (sink_step (set_wire s []) o))).
+  { apply settle_books. destruct O as [->|(k & idq & size & [->| ->])]; cbn [sink_step] in *.
+    - eapply poll_ended_books; eauto.
+    - eapply start_ended_books; eauto.
+    - eapply create_ended_books; eauto. }
+  unfold books in B. sk in B. exact B.
 Qed.
